@@ -29,6 +29,7 @@ import (
 	"strconv"
 	"strings"
 	"sync"
+	"sync/atomic"
 	"time"
 
 	"tunnox-core/internal/app/server"
@@ -319,6 +320,12 @@ func (r *rig) log(e fw.Event) {
 	r.emu.Unlock()
 }
 
+func (r *rig) armedNow() string {
+	r.fmu.Lock()
+	defer r.fmu.Unlock()
+	return r.armed
+}
+
 func (r *rig) arm(class string) {
 	r.fmu.Lock()
 	r.armed = class
@@ -566,9 +573,11 @@ type behaviour struct {
 var nodeOfProc = map[string]int{"p1": 0, "p2": 1, "p3": 1, "p4": 0, "lk": 0}
 
 type active struct {
-	name string
-	op   string
-	done bool
+	name    string
+	op      string
+	done    bool
+	pending string // gate class of this call's storage operation that is to fail once (armed whenever the call is released)
+	faulted bool   // the fault has fired inside this call
 }
 
 func (r *rig) createPre() error {
@@ -576,7 +585,7 @@ func (r *rig) createPre() error {
 	tp := 8000 + r.tpSeq
 	r.log(fw.Event{"ev": "Call", "p": "setup", "op": "Create", "c": cidOf["c1"], "name": fullOf("n1"), "raw": fullOf("n1"), "tp": tp})
 	out := r.doCreate(r.nodes[0], "repo", cidOf["c1"], subOf["n1"], tp)
-	r.log(fw.Event{"ev": "Ret", "p": "setup", "op": "Create", "ok": out.ok, "id": out.id, "err": out.err})
+	r.log(fw.Event{"ev": "Ret", "p": "setup", "op": "Create", "ok": out.ok, "id": out.id, "err": out.err, "faulted": false})
 	if !out.ok || out.id != "hdm_1" {
 		return fmt.Errorf("setup create: ok=%v id=%q err=%s", out.ok, out.id, out.err)
 	}
@@ -591,7 +600,7 @@ func (r *rig) logRet(a *active) {
 	out, _ := r.s.Result(a.name).(res)
 	switch a.op {
 	case "Create":
-		r.log(fw.Event{"ev": "Ret", "p": a.name, "op": "Create", "ok": out.ok, "id": out.id, "err": out.err})
+		r.log(fw.Event{"ev": "Ret", "p": a.name, "op": "Create", "ok": out.ok, "id": out.id, "err": out.err, "faulted": a.faulted})
 	case "Lookup":
 		r.log(fw.Event{"ev": "Ret", "p": a.name, "op": "Lookup", "routed": out.routed, "c": out.c, "tp": out.tp, "code": out.code})
 	default:
@@ -625,6 +634,8 @@ func drive(env *fw.Env, b fw.Behaviour) *fw.Trace {
 		return driveFree(env, beh)
 	case "spell":
 		return driveSpell(beh)
+	case "regrace":
+		return driveRegRace(beh)
 	}
 	r := newRig(beh.Tier, false)
 	defer r.close()
@@ -772,17 +783,19 @@ func drive(env *fw.Env, b fw.Behaviour) *fw.Trace {
 			}
 			if cls != want {
 				note("step %d: %s is at %q, model expects %s at %s", i, a.name, cls, st.A, want)
-			} else if st.F {
-				r.arm(want)
 			}
-			ns, _ := r.s.Step(a.name)
-			r.arm("")
+			if st.F {
+				// the storage operation the model names is to fail once; if the code issues it at another point
+				// of the call (diverged), the fault stays pending for this call until that operation comes
+				a.pending = want
+			}
+			ns := stepCall(r, a)
 			if st.R != "-" && ns == sched.Parked {
 				// the model's call returns here, the code has further storage operations (e.g. a lookup that
 				// writes, a clean-up on a refused path): they are extra steps of this call, run now
 				note("step %d: %s continues after %s (at %v), model expects it to return %s", i, a.name, st.A, atClass(r, a.name), st.R)
 				for k := 0; k < 40 && ns == sched.Parked; k++ {
-					ns, _ = r.s.Step(a.name)
+					ns = stepCall(r, a)
 				}
 			}
 			if ns == sched.Done {
@@ -802,6 +815,24 @@ func drive(env *fw.Env, b fw.Behaviour) *fw.Trace {
 		}
 		probe()
 	}
+	// the schedule is over: calls still in flight are finished one after the other (in call order), each run
+	// to its end step by step - deterministic, and no two calls ever run inside the storage at once (what
+	// hybrid.Storage does when two NODES update one list concurrently is C14's subject, not this check's)
+	for _, a := range started {
+		for k := 0; k < 60 && !a.done; k++ {
+			state, _ := r.s.State(a.name)
+			if state == sched.Done {
+				r.logRet(a)
+				break
+			}
+			if state != sched.Parked {
+				break
+			}
+			if stepCall(r, a) == sched.Done {
+				r.logRet(a)
+			}
+		}
+	}
 	if !r.s.Drain(3 * time.Second) {
 		return &fw.Trace{Status: fw.DriverError, Note: "processes did not finish after drain"}
 	}
@@ -820,6 +851,22 @@ func drive(env *fw.Env, b fw.Behaviour) *fw.Trace {
 		return &fw.Trace{Status: fw.Diverged, Note: diverged, Events: r.events}
 	}
 	return &fw.Trace{Status: fw.Realised, Events: r.events}
+}
+
+// stepCall releases the call from its gate; a pending fault of the call is armed only while it runs (the
+// driver's own lookups between steps never consume it).
+func stepCall(r *rig, a *active) string {
+	if a.pending != "" {
+		r.arm(a.pending)
+	}
+	ns, _ := r.s.Step(a.name)
+	if a.pending != "" {
+		if r.armedNow() == "" {
+			a.pending, a.faulted = "", true
+		}
+		r.arm("")
+	}
+	return ns
 }
 
 func atClass(r *rig, name string) string {
@@ -852,7 +899,7 @@ func driveSpell(beh behaviour) *fw.Trace {
 		full := sub + "." + baseDomain
 		r.log(fw.Event{"ev": "Call", "p": p, "op": "Create", "c": c, "name": strings.ToLower(full), "raw": full, "tp": tp})
 		out := r.doCreate(n, beh.API, c, sub, tp)
-		r.log(fw.Event{"ev": "Ret", "p": p, "op": "Create", "ok": out.ok, "id": out.id, "err": out.err})
+		r.log(fw.Event{"ev": "Ret", "p": p, "op": "Create", "ok": out.ok, "id": out.id, "err": out.err, "faulted": false})
 		return out
 	}
 	del := func(n *node, c int64, id string) res {
@@ -965,7 +1012,7 @@ func driveFree(env *fw.Env, beh behaviour) *fw.Trace {
 					r.events = append(r.events, fw.Event{"ev": "Call", "p": call, "op": "Create", "c": c, "name": fullOf(o.n), "raw": fullOf(o.n), "tp": tp})
 					r.emu.Unlock()
 					out := r.doCreate(n, beh.API, c, subOf[o.n], tp)
-					r.log(fw.Event{"ev": "Ret", "p": call, "op": "Create", "ok": out.ok, "id": out.id, "err": out.err})
+					r.log(fw.Event{"ev": "Ret", "p": call, "op": "Create", "ok": out.ok, "id": out.id, "err": out.err, "faulted": false})
 					if out.ok {
 						kmu.Lock()
 						ids = append(ids, known{out.id, c})
@@ -1007,6 +1054,69 @@ func driveFree(env *fw.Env, beh behaviour) *fw.Trace {
 	return &fw.Trace{Status: fw.Realised, Events: r.events}
 }
 
+// ---- parallel legacy claims ----------------------------------------------------------------------
+
+// driveRegRace: Ops rounds; in each, Procs persistent goroutines (one legacy mapping of a different client
+// each) are released together by a spin barrier and call the real DomainRegistry.Register for one fresh full
+// domain - the step the management API acknowledges a legacy HTTP mapping with. No storage gate lies inside
+// Register, so this window is exercised by truly parallel calls, many rounds. Every acknowledged claim is
+// logged (LegCreate), then the name is requested through the real proxy (repository miss -> registry).
+func driveRegRace(beh behaviour) *fw.Trace {
+	r := newRig("store", true)
+	defer r.close()
+	k := beh.Procs
+	acks := make([]bool, k)
+	var gen, arrived, finished atomic.Int64
+	var stop atomic.Bool
+	for i := 0; i < k; i++ {
+		go func(i int) {
+			last := int64(0)
+			for {
+				for gen.Load() == last {
+					runtime.Gosched()
+				}
+				last = gen.Load()
+				if stop.Load() {
+					return
+				}
+				rd := int(last - 1)
+				pm := &models.PortMapping{ID: fmt.Sprintf("pm_%d_%d", rd, i), TargetClientID: int64(201 + i), TargetHost: "127.0.0.1", TargetPort: 9000 + rd*k + i,
+					Protocol: models.ProtocolHTTP, HTTPSubdomain: fmt.Sprintf("r%d", rd), HTTPBaseDomain: baseDomain, Status: models.MappingStatusActive}
+				// spin barrier: nobody calls Register before all racers of this round are here
+				arrived.Add(1)
+				for n := 0; arrived.Load() < last*int64(k); n++ {
+					if n%4096 == 4095 {
+						runtime.Gosched()
+					}
+				}
+				acks[i] = r.reg.Register(pm) == nil
+				finished.Add(1)
+			}
+		}(i)
+	}
+	deadline := time.Now().Add(6 * time.Second)
+	for rd := 0; rd < beh.Ops && time.Now().Before(deadline); rd++ {
+		for i := range acks {
+			acks[i] = false
+		}
+		gen.Add(1)
+		for finished.Load() < int64(rd+1)*int64(k) {
+			runtime.Gosched()
+		}
+		full := fmt.Sprintf("r%d.%s", rd, baseDomain)
+		for i, ok := range acks {
+			if ok {
+				r.log(fw.Event{"ev": "LegCreate", "lid": rd*k + i + 1, "c": int64(201 + i), "name": full, "tp": 9000 + rd*k + i, "here": true})
+			}
+		}
+		r.lookupEvent("rr", spelling{"plain", full, full})
+	}
+	stop.Store(true)
+	gen.Add(1)
+	r.log(r.finalEvent())
+	return &fw.Trace{Status: fw.Realised, Events: r.events}
+}
+
 // ---- jobs ------------------------------------------------------------------------------------------
 
 type mcfg struct {
@@ -1016,6 +1126,7 @@ type mcfg struct {
 	spell                           string // "" = {"plain"}
 	nofold                          bool
 	onlyDel, onlyCre, deviate       string // "" = {}
+	delFaults                       bool
 	lp                              string // lookup processes ("" = one)
 	emit                            bool
 	invs                            string
@@ -1051,15 +1162,15 @@ func tf(b bool) string {
 	return "FALSE"
 }
 
-const allInvs = "OneOwner RouteOK OwnerOnly LockHeld OnlyHolderUnlocks LookupPure Consistent Claimable NoIndexTheft"
-const excusedInvs = "OneOwnerX RouteOKX OwnerOnly LockHeld OnlyHolderUnlocks LookupPure Consistent Claimable NoIndexTheft"
+const allInvs = "OneOwner RouteOK OwnerOnly LockHeld OnlyHolderUnlocks LookupPure RegisterAtomic Consistent Claimable NoIndexTheft"
+const excusedInvs = "OneOwnerX RouteOKX OwnerOnly LockHeld OnlyHolderUnlocks LookupPure RegisterAtomic Consistent Claimable NoIndexTheft"
 
 func job(name string, c mcfg) fw.TLCJob {
 	return fw.TLCJob{Name: name, Module: "Domain", Cfg: "Domain.cfg", Workers: 8, Timeout: 14 * time.Minute,
 		Consts: map[string]string{"P1": c.p1, "P2": c.p2, "LP": lpOf(c), "NAMES": c.names, "MAXOPS": strconv.Itoa(c.maxOps),
 			"MAXLOOK": strconv.Itoa(c.maxLook), "KINDS": c.kinds, "PRE": tf(c.pre), "FAULTS": strconv.Itoa(c.faults), "GUESS": tf(c.guess),
 			"HANDLER": `{"p2"}`, "SEQ": tf(c.serial), "MAXLEG": strconv.Itoa(c.maxLeg), "FIX": tf(c.fix), "EMIT": tf(c.emit), "INVS": c.invs,
-			"SPELL": spellOf(c), "FOLD": tf(!c.nofold), "ONLYDEL": setOf(c.onlyDel), "ONLYCRE": setOf(c.onlyCre), "DEVIATE": setOf(c.deviate)}}
+			"SPELL": spellOf(c), "FOLD": tf(!c.nofold), "ONLYDEL": setOf(c.onlyDel), "ONLYCRE": setOf(c.onlyCre), "DEVIATE": setOf(c.deviate), "DELFAULTS": tf(c.delFaults)}}
 }
 
 const cd = `{"Create", "Delete"}`
@@ -1090,6 +1201,13 @@ func spellCfg(fix, emit bool, ops, looks int) mcfg {
 func del3(emit bool, looks int) mcfg {
 	return mcfg{p1: `{"p1", "p3", "p4"}`, p2: `{"p2"}`, names: `{"n1"}`, kinds: cd, maxOps: 1, maxLook: looks, pre: true, fix: true, emit: emit,
 		onlyDel: `{"p1", "p3", "p4"}`, onlyCre: `{"p2"}`}
+}
+
+// delFault: sequential histories of the owner deleting (twice: the retry) and another client claiming, with any one
+// storage operation of DeleteMapping failing once
+func delFault(emit bool) mcfg {
+	return mcfg{p1: `{"p1"}`, p2: `{"p2"}`, names: `{"n1"}`, kinds: cd, maxOps: 2, maxLook: 2, faults: 1, pre: true, serial: true, fix: true, emit: emit,
+		onlyDel: `{"p1"}`, onlyCre: `{"p2"}`, delFaults: true}
 }
 
 // deviating: schedules of code that has one of the named deviations the present code does not have
@@ -1133,6 +1251,7 @@ func main() {
 				job("gen:seq", with(seqCfg(true, true, cdu, 2, 2, 0, 1), excusedInvs)),
 				job("gen:spell", with(spellCfg(true, true, 2, 2), allInvs)),
 				job("gen:del3", with(del3(true, 1), allInvs)),
+				job("gen:delf", with(delFault(true), allInvs)),
 				job("legacy:dev:conflict-unlock", deviating(del3(true, 0), `{"conflictUnlock"}`)),
 				job("legacy:dev:lazy-clean", deviating(claim2(true, 1), `{"lazyClean"}`)),
 				job("legacy:conc3", unrepaired(conc3(false, true, 1, 1, 0), "")),
@@ -1153,7 +1272,7 @@ func main() {
 			if err := json.Unmarshal(raw, &steps); err != nil {
 				panic(err)
 			}
-			pre := !strings.Contains(src, ":seq") && !strings.Contains(src, ":spell") && !strings.Contains(src, "lazy-clean")
+			pre := !strings.HasSuffix(src, ":seq") && !strings.HasPrefix(src, "gen:seq") && !strings.Contains(src, ":spell") && !strings.Contains(src, "lazy-clean")
 			legacy := strings.HasPrefix(src, "legacy:")
 			var out []json.RawMessage
 			for _, tier := range []string{"store", "hybrid"} {
@@ -1163,9 +1282,13 @@ func main() {
 		},
 		ExtraBeh: func(env *fw.Env) []json.RawMessage {
 			var out []json.RawMessage
-			nfree := 30
+			nfree, nrace := 30, 400
 			if env.Tier == "thorough" {
-				nfree = 400
+				nfree, nrace = 400, 4000
+			}
+			for i := 0; i < 3; i++ { // parallel legacy claims (DomainRegistry.Register), see driveRegRace
+				out = append(out, fw.MustJSON(behaviour{Kind: "regrace", Tier: "store", API: "repo", Procs: 8, Ops: nrace, Seed: i}))
+				out = append(out, fw.MustJSON(behaviour{Kind: "regrace", Tier: "store", API: "repo", Procs: 3, Ops: nrace, Seed: i}))
 			}
 			for _, tier := range []string{"store", "hybrid"} {
 				for _, api := range []string{"repo", "cmd"} {
@@ -1181,6 +1304,9 @@ func main() {
 			if env.Tier == "quick" {
 				if strings.HasPrefix(src, "legacy:") {
 					return 400
+				}
+				if src == "gen:delf" {
+					return 1200
 				}
 				return 700
 			}
